@@ -155,6 +155,13 @@ theorem handshake_complete_iff_no_fault (steps : List IoStep) (i : Nat) (k : Fau
 example : hsFault [.sendHs, .recv, .flush, .recv] 2 .pipe none = ⟨some .socketError, true, false, false⟩ := by decide
 example : hsFault [.sendHs, .recv] 0 .pipe (some 40) = ⟨some (.remoteAlert 40), true, false, false⟩ := by decide
 
+/-- A fatal (or warning) alert of the peer in the middle of a handshake is surfaced with its
+    description; the connection is closed, the session not resumable, the handshake not complete. -/
+theorem fatal_alert_in_handshake (lvl d : Nat) (hd : d ≠ 0) :
+    (hsAlert lvl d).exc = some (.remoteAlert d) ∧ (hsAlert lvl d).closed = true ∧
+    (hsAlert lvl d).resumable = false ∧ (hsAlert lvl d).complete = false := by
+  simp [hsAlert, hd]
+
 /-- Transport faults in the data phase.  A receive failing with a reset: socket error, closed, not
     resumable.  A send failing: `write` raises the socket error and closes (resumable kept only if
     the user set ignoreAbruptClose); KeyUpdate / heartbeat / post-handshake-auth requests raise it,
